@@ -204,8 +204,8 @@ def pre_gm(mi: int, ai: int, xi: int, rr: bool, li: int) -> bool:
 
 @harness(
     pre=pre_gm,
-    quick=dict(HOSTILE_REPR=0, timeout=100),
-    thorough=dict(HOSTILE_REPR=0, timeout=300),
+    quick=dict(HOSTILE_REPR=1, timeout=100),
+    thorough=dict(HOSTILE_REPR=1, timeout=300),
     nshards=dict(quick=5, thorough=5),
     reach=["getmessage_KeyError", "getmessage_OverflowError", "getmessage_IndexError", "getmessage_UnicodeError",
            "getmessage_TypeError", "getmessage_custom", "getmessage_ok"],
